@@ -317,7 +317,7 @@ UNIT_NAMES = ["public", "private", "no-cache", "no-store", "no-transform", "must
 UNIT_ARGS = ["", "0", "5", "3600", "-1", "-0", "+7", " 9", "9 ", "12x", "x12", "abc", "2147483647", "2147483648", "-2147483648",
              "-2147483649", "4294967396", "9223372036854775807", "9223372036854775808", "99999999999999999999999", "0x10",
              "\"\"", "\"x\"", "\"a,b\"", "\"a, no-store\"", "\"a\\\"b\"", "\"a\\\\\"", "\"a\\", "\"unterminated", "\"x\"y", "x\"y\"",
-             "\" \"", "\"\t\"", "\"a\x01b\"", "\"a\x7fb\"", "\"\\", "\"", "=", "\"=\"", "1,5", "\"é\""]
+             "\" \"", "\"\t\"", "\"a\tb\"", "\"a\\\tb\"", "\"\\\"\"", "\"a\\\\b\"", "\"x\\\"y\"", "\"a\x01b\"", "\"a\x7fb\"", "\"\\", "\"", "=", "\"=\"", "1,5", "\"é\""]
 UNIT_SEPS = [",", ", ", " ,", " , ", ",,", ", ,", ",\t", "\t,", ";", " ", ",\x0b", ",\x0c,", "\r\n ,", ",\n"]
 
 
